@@ -280,11 +280,22 @@ def _label(rng, kind=None):
     return rng.choice(INVALID)
 
 
+# labels that are only used as *_encoding ARGUMENTS: in a <meta> the HTML standard maps x-user-defined to windows-1252,
+# which html5lib does not do and the property does not mention (don't-care there); named by the caller they must be
+# selected and reported like any other label.  webencodings' stream reader for this encoding does not agree with its own
+# one-shot decoder (a defect of that package), so the decoded-reference oracle O2 is skipped when it is the final encoding.
+ARG_ONLY_VALID = ["x-user-defined", "X-User-Defined"]
+O2_SKIP = {"x-user-defined", "replacement"}
+
+
 def _arg(rng, p_present):
     if rng.random() >= p_present:
         return None
-    if rng.random() < 0.08:
+    r = rng.random()
+    if r < 0.08:
         return rng.choice(INVALID_ARG_ONLY)
+    if r < 0.14:
+        return rng.choice(ARG_ONLY_VALID)
     return _label(rng)
 
 
@@ -658,7 +669,7 @@ def execute(case):
     if truth is not None and out[3] != truth:
         return _fail(res, "O3-precedence", "documentEncoding %r, precedence model says %r (rule %s)" % (out[3], truth, rule))
     # O2
-    if dec is not None:
+    if dec is not None and out[3] not in O2_SKIP:
         if dec[0] != "ok":
             return _fail(res, "O2-restart", "decoded reference %s" % brief(dec[:3]))
         ok_tree = out[1] == dec[1]
